@@ -733,7 +733,338 @@ func c13PanicClass(s string) string {
 	return "other"
 }
 
-var _ = syntax.Stop
+// ---------------------------------------------------------------------------------------------
+// Leg A: allocation arithmetic, Lean alloc0/grow/ensure vs the capacities the runner really allocates
+
+type c13ACase struct {
+	Pattern string `json:"pattern"`
+	Opts    int    `json:"opts"`
+	Input   string `json:"input"`
+	Call    string `json:"call"`   // find | quick
+	Limits  []int  `json:"limits"` // extra limits to compare at
+	Seq     []int  `json:"seq"`    // permille of the largest demand: checks placed before the largest one in the model run
+}
+
+func c13GenA(rng *rand.Rand, i int) c13ACase {
+	cs := c13ACase{Call: "find"}
+	if rng.Intn(3) == 0 {
+		cs.Call = "quick"
+	}
+	if i%3 != 2 {
+		var ins []string
+		cs.Pattern, ins = c13Family(rng)
+		cs.Input = ins[rng.Intn(len(ins))]
+	} else {
+		g := &c13Gen{rng: rng, budget: 10 + rng.Intn(30)}
+		f := g.tower(2 + rng.Intn(8))
+		cs.Pattern = f.pat
+		cs.Opts = int(c13Opts[rng.Intn(len(c13Opts))])
+		cs.Input = f.sample(rng)
+		if len(cs.Input) > 150 {
+			cs.Input = cs.Input[:150]
+		}
+	}
+	for k := rng.Intn(4); k > 0; k-- {
+		cs.Seq = append(cs.Seq, rng.Intn(1001))
+	}
+	for k := 0; k < 4; k++ {
+		cs.Limits = append(cs.Limits, rng.Intn(1200))
+	}
+	return cs
+}
+
+// one call on a freshly compiled Regexp: result kind and the largest backtracking stack allocated
+func c13FreshCall(cs c13ACase, L int) (kind int, capHW int, detail string) {
+	re, err := c13Compile(cs.Pattern, cs.Opts, L)
+	if err != nil {
+		return c13OtherErr, 0, err.Error()
+	}
+	regexp2.VerifResetMaxTrackCap()
+	var r c13Res
+	if cs.Call == "quick" {
+		r = c13Quick(re, cs.Input)
+	} else {
+		r = func() (res c13Res) {
+			defer func() {
+				if p := recover(); p != nil {
+					res.Kind = c13Panic
+					res.Detail = fmt.Sprint(p)
+				}
+			}()
+			_, err := re.FindStringMatch(cs.Input)
+			if err != nil {
+				c13Err(&res, err)
+			}
+			return
+		}()
+	}
+	return r.Kind, regexp2.VerifMaxTrackCap(), r.Detail
+}
+
+func c13CheckA(c *core.Ctx, cases []c13ACase) []core.Outcome {
+	if !c13Once {
+		c13Once = true
+		regexp2.SetTimeoutCheckPeriod(10 * time.Millisecond)
+	}
+	outs := make([]core.Outcome, len(cases))
+	type probe struct {
+		ci, L     int
+		goAns     string
+		allowZero bool // no storage check is reached: the call may return before an interpreter state is set up at all
+	}
+	var probes []probe
+	var lines []string
+	for ci, cs := range cases {
+		o := &outs[ci]
+		o.Key = fmt.Sprintf("%s/%d/%q/%s", cs.Pattern, cs.Opts, cs.Input, cs.Call)
+		ref, err := c13Compile(cs.Pattern, cs.Opts, c13Unlimited)
+		if err != nil {
+			o.Buckets = append(o.Buckets, "compile-error")
+			continue
+		}
+		tc := regexp2.VerifCode(ref).TrackCount
+		t0 := time.Now()
+		kind, capU, _ := c13FreshCall(cs, c13Unlimited)
+		if kind != c13OK || time.Since(t0) > 10*time.Millisecond {
+			o.Buckets = append(o.Buckets, "skipped-slow-or-error")
+			continue
+		}
+		// threshold L*: the smallest limit under which the call succeeds (bisection on the real code)
+		lo, hi := 0, capU // success at hi is itself checked below against the model
+		if k, _, _ := c13FreshCall(cs, hi); k != c13OK {
+			if k == c13LimitErr {
+				o.Fail = &core.Failure{Kind: "correspondence-break", Key: "A:fails-at-unlimited-capacity", Summary: fmt.Sprintf("the unlimited run allocates %d slots but the same call fails under limit %d", capU, capU), Expected: "ok", Got: "ErrBacktrackingStackLimit"}
+			}
+			continue
+		}
+		bad := false
+		for lo < hi {
+			mid := (lo + hi) / 2
+			k, _, _ := c13FreshCall(cs, mid)
+			switch k {
+			case c13OK:
+				hi = mid
+			case c13LimitErr:
+				lo = mid + 1
+			default:
+				bad = true
+				lo = hi
+			}
+		}
+		if bad {
+			o.Buckets = append(o.Buckets, "skipped-slow-or-error")
+			continue
+		}
+		star := lo
+		alloc := 8 * tc
+		if alloc < 64 {
+			alloc = 64
+		}
+		switch {
+		case star == 0:
+			o.Buckets = append(o.Buckets, "no-check-reached")
+		case star == 4*tc:
+			o.Buckets = append(o.Buckets, "only-empty-stack-checks")
+		case capU > alloc:
+			o.Buckets = append(o.Buckets, "stack-grew")
+			o.Nontrivial = true
+		default:
+			o.Buckets = append(o.Buckets, "fits-initial-allocation")
+			o.Nontrivial = true
+		}
+		if star != 0 && star < 4*tc {
+			o.Fail = &core.Failure{Kind: "correspondence-break", Key: "A:threshold-below-first-demand", Summary: fmt.Sprintf("the call succeeds under limit %d although the first storage check demands 4*TrackCount = %d free slots", star, 4*tc), Expected: fmt.Sprintf(">= %d", 4*tc), Got: fmt.Sprint(star)}
+			continue
+		}
+		// demand sequence for the model: some smaller demands, then the largest one
+		var seq []int
+		if star > 0 {
+			top := star - 4*tc
+			seq = append(seq, 0)
+			for _, pm := range cs.Seq {
+				seq = append(seq, top*pm/1000)
+			}
+			seq = append(seq, top)
+			for _, pm := range cs.Seq {
+				seq = append(seq, top*(1000-pm)/1000)
+			}
+		}
+		set := map[int]bool{c13Unlimited: true, star: true, star + 1: true, alloc: true, alloc + 1: true, alloc - 1: true, 2 * alloc: true, 2*alloc + 1: true, 2*alloc - 1: true, 4 * tc: true, 2*star - 1: true, 2 * star: true, capU: true, capU - 1: true, capU + 1: true, capU / 2: true, capU/2 + 1: true, 100000: true}
+		if star > 0 {
+			set[star-1] = true
+		}
+		for _, l := range cs.Limits {
+			set[l] = true
+		}
+		var ls []int
+		for l := range set {
+			if l >= -1 {
+				ls = append(ls, l)
+			}
+		}
+		sort.Ints(ls)
+		for _, L := range ls {
+			k, capHW, _ := c13FreshCall(cs, L)
+			var ans string
+			switch k {
+			case c13OK:
+				ans = fmt.Sprintf("(ok %d)", capHW)
+			case c13LimitErr:
+				ans = fmt.Sprintf("(err %d)", capHW)
+			default:
+				continue
+			}
+			probes = append(probes, probe{ci: ci, L: L, goAns: ans, allowZero: star == 0})
+			lines = append(lines, core.S("c13", "sim", fmt.Sprint(L), fmt.Sprint(tc), core.SInts(seq)))
+		}
+	}
+	res, err := c.RunDriver(lines)
+	if err != nil {
+		if len(outs) > 0 && outs[0].Fail == nil {
+			outs[0].Fail = core.DriverFailure(err)
+		}
+		return outs
+	}
+	for pi, p := range probes {
+		// the model reports (err i len): drop the index of the failing check (not observable in Go)
+		m := res[pi]
+		if strings.HasPrefix(m, "(err ") {
+			f := strings.Fields(strings.Trim(m, "()"))
+			if len(f) == 3 {
+				m = "(err " + f[2] + ")"
+			}
+		}
+		if p.allowZero && p.goAns == "(ok 0)" {
+			continue
+		}
+		if m != p.goAns && outs[p.ci].Fail == nil {
+			cs := cases[p.ci]
+			key := "A:capacity"
+			if m[:3] != p.goAns[:3] {
+				key = "A:outcome"
+			}
+			outs[p.ci].Fail = &core.Failure{Kind: "correspondence-break", Key: key,
+				Summary:  fmt.Sprintf("limit %d, %s on %q: the Lean allocation model (driven with the demand threshold measured on the Go code) and the Go runner disagree on outcome / allocated capacity; model line %s", p.L, cs.Call, cs.Input, lines[pi]),
+				Expected: res[pi], Got: p.goAns}
+		}
+	}
+	return outs
+}
+
+// ---------------------------------------------------------------------------------------------
+// Leg P: compiled programs vs the regenerated opcode tables (the `need ≥ Φ(0)` hypothesis)
+
+type c13PCase struct {
+	Pattern string `json:"pattern"`
+	Opts    int    `json:"opts"`
+}
+
+func c13GenP(rng *rand.Rand, i int) c13PCase {
+	if i%5 == 0 {
+		p, _ := c13Family(rng)
+		return c13PCase{Pattern: p, Opts: int(c13Opts[rng.Intn(len(c13Opts))])}
+	}
+	g := &c13Gen{rng: rng, budget: 10 + rng.Intn(60)}
+	var f c13Frag
+	if i%5 == 1 {
+		f = g.tower(2 + rng.Intn(12))
+	} else {
+		f = g.node(3 + rng.Intn(5))
+	}
+	return c13PCase{Pattern: f.pat, Opts: int(c13Opts[rng.Intn(len(c13Opts))])}
+}
+
+func c13CheckP(c *core.Ctx, cases []c13PCase) []core.Outcome {
+	outs := make([]core.Outcome, len(cases))
+	type probe struct {
+		ci                  int
+		which               string
+		ninstr, nbt, tcount int
+	}
+	var probes []probe
+	var lines []string
+	for ci, cs := range cases {
+		o := &outs[ci]
+		o.Key = fmt.Sprintf("%s/%d", cs.Pattern, cs.Opts)
+		re, err := regexp2.Compile(cs.Pattern, regexp2.RegexOptions(cs.Opts))
+		if err != nil {
+			o.Buckets = append(o.Buckets, "compile-error")
+			continue
+		}
+		codes := map[string]*syntax.Code{"main": regexp2.VerifCode(re)}
+		if q := regexp2.VerifQuickCode(re); q != nil {
+			codes["quick"] = q
+			o.Buckets = append(o.Buckets, "has-quick-code")
+		}
+		for _, which := range []string{"main", "quick"} {
+			code := codes[which]
+			if code == nil {
+				continue
+			}
+			// Go-side decoding with the real opcodeSize / opcodeBacktracks
+			n, nbt := 0, 0
+			for pos := 0; pos < len(code.Codes); {
+				op := syntax.InstOp(code.Codes[pos]) & syntax.Mask
+				if syntax.VerifOpcodeBacktracks(op) {
+					nbt++
+				}
+				if op == syntax.Nullmark {
+					next := pos + syntax.VerifOpcodeSize(op)
+					if (next >= len(code.Codes) || syntax.InstOp(code.Codes[next])&syntax.Mask != syntax.Goto) && o.Fail == nil {
+						o.Fail = &core.Failure{Kind: "correspondence-break", Key: "P:nullmark-without-goto", Summary: fmt.Sprintf("%s program: the Nullmark at %d is not followed by a Goto (its push is not paid for by a counted instruction)", which, pos), Expected: "Goto", Got: fmt.Sprint(code.Codes)}
+					}
+				}
+				pos += syntax.VerifOpcodeSize(op)
+				n++
+			}
+			if which == "main" {
+				o.Nontrivial = nbt > 1
+				o.Buckets = append(o.Buckets, "tc-"+c13Bucket(code.TrackCount))
+			}
+			probes = append(probes, probe{ci, which, n, nbt, code.TrackCount})
+			lines = append(lines, core.S("c13", "prog", core.SInts(code.Codes)))
+		}
+	}
+	res, err := c.RunDriver(lines)
+	if err != nil {
+		if len(outs) > 0 && outs[0].Fail == nil {
+			outs[0].Fail = core.DriverFailure(err)
+		}
+		return outs
+	}
+	for pi, p := range probes {
+		o := &outs[p.ci]
+		if o.Fail != nil {
+			continue
+		}
+		var ninstr, pot, tcm, nnull, ngoto int
+		if _, err := fmt.Sscanf(res[pi], "(prog %d %d %d %d %d)", &ninstr, &pot, &tcm, &nnull, &ngoto); err != nil {
+			o.Fail = &core.Failure{Kind: "correspondence-break", Key: "P:decode", Summary: p.which + " program: the Lean decoder (regenerated opcodeSize table) rejects the code array", Expected: "(prog …)", Got: res[pi]}
+			continue
+		}
+		bad := func(key, sum, exp, got string) {
+			if o.Fail == nil {
+				o.Fail = &core.Failure{Kind: "correspondence-break", Key: key, Summary: p.which + " program: " + sum, Expected: exp, Got: got}
+			}
+		}
+		if ninstr != p.ninstr {
+			bad("P:instruction-count", "instruction count by the regenerated opcodeSize table differs from syntax.opcodeSize", fmt.Sprint(ninstr), fmt.Sprint(p.ninstr))
+		}
+		if tcm != p.nbt {
+			bad("P:backtracks-table", "backtracking instructions by the regenerated opcodeBacktracks table differ from syntax.opcodeBacktracks", fmt.Sprint(tcm), fmt.Sprint(p.nbt))
+		}
+		if p.which == "main" && tcm != p.tcount || tcm > p.tcount {
+			bad("P:trackcount", "Code.TrackCount is not the number of backtracking instructions of the program", fmt.Sprint(tcm), fmt.Sprint(p.tcount))
+		}
+		if nnull > ngoto {
+			bad("P:pairing", "more Nullmark than Goto instructions", fmt.Sprintf("<= %d", ngoto), fmt.Sprint(nnull))
+		}
+		if pot > 4*p.tcount {
+			bad("P:potential-exceeds-need", fmt.Sprintf("the positions of the program can push %d slots between two storage checks but a check only guarantees 4*TrackCount = %d", pot, 4*p.tcount), fmt.Sprintf("<= %d", 4*p.tcount), fmt.Sprint(pot))
+		}
+	}
+	return outs
+}
 
 func init() {
 	core.Register("C13", func(c *core.Ctx) {
@@ -747,7 +1078,23 @@ func init() {
 		core.RunLeg(c, core.Leg[c13Case]{
 			Name: "O", Kind: "oracle",
 			Rule: "every 4th case a linear family (loop bodies of alternations/lazy optionals/counted loops/backrefs/conditionals/lookarounds/atomic groups over inputs of 5-125 repeated units), every 4th a tower of 2-11 nested quantified groups, the rest random ASTs of depth 3-6 (literals, classes, anchors, concatenation, 2-6-way alternation, greedy/lazy * + ? {m,n} {m,} {m}, captures, named captures, four lookarounds, atomic groups, backrefs, conditionals) under one of 10 option sets; inputs: two samples drawn from the pattern (sometimes padded), one random text, sometimes a long random text; limits: 0,64,100,257,1000,default plus 12 random values of 1..63 (thorough: all of 0..64) plus alloc+{-4,-1,0,1,4}, 4tc+{…}, 2alloc+{…} where alloc=max(64,8·TrackCount), and -1. Per (limit,input,call∈{FindStringMatch+3×FindNextMatch, MatchString}) on a fresh Regexp: no panic; result identical to the unlimited result or exactly ErrBacktrackingStackLimit (matches returned before the error identical too); VerifMaxTrackCap ≤ L; success at L ⇒ success at every larger limit; then one Regexp reused over all inputs forwards and backwards answers like the fresh ones (usable after an error). non-trivial = some limit ≥ 4·TrackCount fails (run cut off after its first storage check) and some limit succeeds; distinct by (pattern,options,inputs)",
-			Corpus: corpus, N: c.N(300, 9000), Gen: c13GenCase(c), Check: c13CheckO, Batch: 50,
+			Corpus: corpus, N: c.N(300, 4500), Gen: c13GenCase(c), Check: c13CheckO, Batch: 50,
+		})
+		core.RunLeg(c, core.Leg[c13ACase]{
+			Name: "A", Kind: "correspondence",
+			Rule: "2/3 linear families, 1/3 towers of nested quantified groups; one input; call = FindStringMatch or MatchString on a freshly compiled Regexp. The smallest limit L* under which the call succeeds is found by bisection on the Go code; by theorem ensure_ok_iff L* = (largest stack depth at a storage check) + 4·TrackCount, so the Lean model (alloc0, then ensure per check) is driven with a demand sequence whose maximum is L* − 4·TrackCount and must predict, at ~25 limits (L*−1, L*, L*+1, alloc±1, 2alloc±1, 2L*, the unlimited capacity ±1 and its half, 100000, 4 random, −1), both the outcome and the exact VerifMaxTrackCap (the clamped doubling chain; = L on failure). non-trivial = some check happens with a non-empty stack; distinct by (pattern,options,input,call)",
+			Corpus: []c13ACase{
+				{Pattern: `(?:xa??b??c??d??e??f??g??h??i??j??k??)*y`, Input: strings.Repeat("x", 60), Call: "find", Limits: []int{256, 257, 258}, Seq: []int{500}},
+				{Pattern: `(a|b)*c`, Input: strings.Repeat("ab", 100) + "c", Call: "quick", Limits: []int{64, 65, 1000}},
+				{Pattern: `abc`, Input: "xxabc", Call: "find", Limits: []int{0, 3, 4, 5}},
+			},
+			N: c.N(500, 20000), Gen: c13GenA, Check: c13CheckA, Batch: 100,
+		})
+		core.RunLeg(c, core.Leg[c13PCase]{
+			Name: "P", Kind: "correspondence",
+			Rule: "random patterns (as leg O, larger) under 10 option sets; for the main and the bool-only program: the Lean decoder with the regenerated opcodeSize table splits Code.Codes into the same number of instructions as syntax.opcodeSize; the regenerated opcodeBacktracks table counts Code.TrackCount instructions (bool-only program: at most); every Nullmark is directly followed by a Goto; and the potential Σ weight(op) computed in Lean from the regenerated case fingerprints is ≤ 4·TrackCount (hypothesis `need ≥ Φ(0)` of track_inv for this program). non-trivial = more than one backtracking instruction; distinct by (pattern,options)",
+			Corpus: []c13PCase{{Pattern: `(?:ab?)*c`}, {Pattern: `(?<n>a)*?(?(n)b|c){2,5}(?>x+)(?<=y)`, Opts: int(regexp2.RightToLeft)}},
+			N: c.N(4000, 200000), Gen: c13GenP, Check: c13CheckP, Batch: 1000,
 		})
 	})
 }
